@@ -405,16 +405,6 @@ End Step.
 
 (* ------------------------------------------------------------------ safety: any transport *)
 
-(** The Read calls of one [Recv] on a stream whose first item announces [N] bytes in all:
-    each asks for exactly what is missing of the header (while fewer than 8 bytes have
-    been received) or of the item (afterwards), never for nothing. [c] = bytes received
-    before the call. *)
-Fixpoint trace_ok (N c : Z) (tr : list (Z * Z)) : Prop :=
-  match tr with
-  | [] => True
-  | (w, n) :: r => w = (if c <? 8 then 8 else N) - c /\ 0 < w /\ 0 <= n <= w /\ trace_ok N (c + n) r
-  end.
-
 Lemma trace_ok_app N a : forall c w n,
   trace_ok N c a -> w = (if c + tsum a <? 8 then 8 else N) - (c + tsum a) -> 0 < w -> 0 <= n <= w ->
   trace_ok N c (a ++ [(w, n)]).
@@ -621,16 +611,16 @@ Section Progress.
   Notation recv_step := (recv_step M um W max).
   Notation recv_loop := (recv_loop M um W max).
   Notation recv := (recv M um W max).
-  Notation oversize := (oversize max N).
+  Notation ovs := (oversize max N).
   Notation inv := (inv W max D N).
 
   (** The result of [Recv] is determined by the stream alone. *)
   Definition spec (r : rres M) : Prop :=
-    (8 <= len D -> oversize -> r_out r = RTooBig) /\
-    (~ oversize -> N <= len D ->
+    (8 <= len D -> ovs -> r_out r = RTooBig) /\
+    (~ ovs -> N <= len D ->
        r_out r = RMsg (um (take N D)) /\ t_rest (r_tr r) = drop N D /\
        faithful (t_sched (r_tr r)) /\ t_end (r_tr r) = e) /\
-    (len D < N -> (len D < 8 \/ ~ oversize) -> r_out r = RErr e /\ t_rest (r_tr r) = []).
+    (len D < N -> (len D < 8 \/ ~ ovs) -> r_out r = RErr e /\ t_rest (r_tr r) = []).
 
   Lemma step_progress s :
     inv s -> faithful (t_sched (l_tr s)) -> t_end (l_tr s) = e ->
@@ -668,7 +658,7 @@ Section Progress.
     destruct (Z.gtb_spec (l_need s) cap') as [?|_]; [lia|]. cbn [orb].
     (* an error result at a point where the stream is drained *)
     assert (Hdrained : forall tr', t_rest t' = [] -> l_read s + len chunk < (if l_read s + len chunk <? 8 then 8 else N) ->
-              (8 <= l_read s + len chunk -> ~ oversize) ->
+              (8 <= l_read s + len chunk -> ~ ovs) ->
               spec (mkRes (RErr e) t' cap' tr')).
     { intros tr' Hd Hshort Hno. rewrite Hd in HlenD. rewrite st_len_nil in HlenD.
       unfold spec; cbn [r_out r_tr]. split; [|split].
@@ -688,7 +678,7 @@ Section Progress.
       destruct ((0 <? max) && ((if l_read s + len chunk <? 8 then 8 else N) >? max)) eqn:Hbig.
       + apply andb_true_iff in Hbig. destruct Hbig as [Hb1 Hb2].
         apply Z.ltb_lt in Hb1. apply Z.gtb_lt in Hb2. specialize (Hmax8 Hb1).
-        assert (Hos : oversize) by (unfold StreamProofs.oversize; destruct (Z.ltb_spec (l_read s + len chunk) 8); lia).
+        assert (Hos : ovs) by (unfold oversize; destruct (Z.ltb_spec (l_read s + len chunk) 8); lia).
         unfold spec; cbn [r_out r_tr]. split; [|split].
         * intros _ _. reflexivity.
         * intros Hno _. exfalso. exact (Hno Hos).
@@ -744,3 +734,383 @@ Section Progress.
     - unfold mu, recv_init; cbn [l_tr l_read]. destruct (t_rest t); cbn; lia.
   Qed.
 End Progress.
+
+(* ------------------------------------------------------------------ headers, frames, arbitrary bytes *)
+
+Lemma prefix_split {A} (h : list A) : forall b x z, b ++ x = h ++ z -> len h <= len b -> exists y, b = h ++ y.
+Proof.
+  induction h as [|a h IH]; intros b x z He Hl.
+  - exists b. reflexivity.
+  - destruct b as [|a' b].
+    + unfold len in Hl. cbn [length] in Hl. lia.
+    + cbn [app] in He. inversion He; subst a'.
+      destruct (IH b x z H1) as [y Hy].
+      * unfold len in *. cbn [length] in Hl. lia.
+      * exists y. cbn [app]. rewrite Hy. reflexivity.
+Qed.
+
+Lemma header_len h total : is_header h total -> len h = 8.
+Proof.
+  intros (tag & ty & l & Hh & Ht & _). subst h. unfold len. rewrite !app_length, Ht, be4_length. reflexivity.
+Qed.
+
+Lemma header_total_ge8 h total : is_header h total -> 8 <= total.
+Proof. intros (tag & ty & l & _ & _ & Hl & Ht). pose proof (pad8_range l). lia. Qed.
+
+(** The size computed from any received prefix that contains the header [h] *)
+Lemma needed_of_header h total D :
+  is_header h total ->
+  (forall b x, D = b ++ x -> 8 <= len b -> exists y, b = h ++ y) ->
+  forall b x, D = b ++ x -> 8 <= len b -> needed_bytes 64 b = total.
+Proof.
+  intros (tag & ty & l & Hh & Ht & Hl & Htot) Hpre b x HD Hb.
+  destruct (Hpre b x HD Hb) as [y Hy]. subst b h total.
+  rewrite <- !app_assoc. apply needed_bytes_header; assumption.
+Qed.
+
+Lemma frame_header f : is_frame f -> exists h body, f = h ++ body /\ is_header h (len f).
+Proof.
+  intros (tag & ty & l & body & Hf & Ht & Hl & Hb).
+  exists (tag ++ [ty] ++ be 4 l), body. split; [rewrite Hf, <- !app_assoc; reflexivity|].
+  exists tag, ty, l. repeat split; try assumption; try lia.
+  subst f. unfold len in *. rewrite !app_length, Ht, be4_length. cbn [length]. lia.
+Qed.
+
+Lemma frame_len_ge8 f : is_frame f -> 8 <= len f.
+Proof. intros Hf. destruct (frame_header f Hf) as (h & body & _ & Hh). exact (header_total_ge8 _ _ Hh). Qed.
+
+Lemma HN_frame f tail : is_frame f ->
+  forall b x, f ++ tail = b ++ x -> 8 <= len b -> needed_bytes 64 b = len f.
+Proof.
+  intros Hf. destruct (frame_header f Hf) as (h & body & Hfb & Hh).
+  apply (needed_of_header h (len f) (f ++ tail) Hh).
+  intros b x HD Hb. apply (prefix_split h b x (body ++ tail)).
+  - rewrite <- HD, Hfb, <- app_assoc. reflexivity.
+  - rewrite (header_len _ _ Hh). exact Hb.
+Qed.
+
+Lemma HN_cut p f q : is_frame f -> f = p ++ q ->
+  forall b x, p = b ++ x -> 8 <= len b -> needed_bytes 64 b = len f.
+Proof.
+  intros Hf Hfp. destruct (frame_header f Hf) as (h & body & Hfb & Hh).
+  apply (needed_of_header h (len f) p Hh).
+  intros b x HD Hb. apply (prefix_split h b (x ++ q) body).
+  - rewrite app_assoc, <- HD, <- Hfp. exact Hfb.
+  - rewrite (header_len _ _ Hh). exact Hb.
+Qed.
+
+Lemma HN_header h total z : is_header h total ->
+  forall b x, h ++ z = b ++ x -> 8 <= len b -> needed_bytes 64 b = total.
+Proof.
+  intros Hh. apply (needed_of_header h total (h ++ z) Hh).
+  intros b x HD Hb. apply (prefix_split h b x z); [symmetry; exact HD|].
+  rewrite (header_len _ _ Hh). exact Hb.
+Qed.
+
+(** arbitrary bytes *)
+Lemma unbe_bound4 l : (length l <= 4)%nat -> bytes_ok l = true -> 0 <= unbe l < 2 ^ 32.
+Proof.
+  intros Hl Hb. change (2 ^ 32) with 4294967296.
+  assert (Hbyte : forall x r, bytes_ok (x :: r) = true -> 0 <= x < 256 /\ bytes_ok r = true).
+  { intros x r H. cbn [bytes_ok forallb] in H. apply andb_true_iff in H. destruct H as [H1 H2].
+    unfold byte_ok in H1. apply andb_true_iff in H1. destruct H1 as [H3 H4].
+    apply Z.leb_le in H3. apply Z.ltb_lt in H4. split; [lia | exact H2]. }
+  destruct l as [|a [|b [|c [|d [|? ?]]]]]; cbn [length] in Hl; try lia; unfold unbe; cbn [fold_left].
+  - lia.
+  - destruct (Hbyte _ _ Hb). lia.
+  - destruct (Hbyte _ _ Hb) as [? Hb1]. destruct (Hbyte _ _ Hb1). lia.
+  - destruct (Hbyte _ _ Hb) as [? Hb1]. destruct (Hbyte _ _ Hb1) as [? Hb2]. destruct (Hbyte _ _ Hb2). lia.
+  - destruct (Hbyte _ _ Hb) as [? Hb1]. destruct (Hbyte _ _ Hb1) as [? Hb2]. destruct (Hbyte _ _ Hb2) as [? Hb3].
+    destruct (Hbyte _ _ Hb3). lia.
+Qed.
+
+Lemma bytes_ok_firstn n l : bytes_ok l = true -> bytes_ok (firstn n l) = true.
+Proof.
+  revert l. induction n as [|n IH]; intros l H; [reflexivity|]. destruct l as [|x l]; [reflexivity|].
+  cbn [firstn bytes_ok forallb] in *. apply andb_true_iff in H. destruct H as [H1 H2].
+  apply andb_true_iff. split; [exact H1 | apply IH; exact H2].
+Qed.
+
+Lemma bytes_ok_skipn n l : bytes_ok l = true -> bytes_ok (skipn n l) = true.
+Proof.
+  revert l. induction n as [|n IH]; intros l H; [exact H|]. destruct l as [|x l]; [reflexivity|].
+  cbn [skipn]. cbn [bytes_ok forallb] in H. apply andb_true_iff in H. destruct H as [_ H2]. apply IH. exact H2.
+Qed.
+
+Lemma bytes_ok_app_l a b : bytes_ok (a ++ b) = true -> bytes_ok a = true.
+Proof. unfold bytes_ok. rewrite forallb_app. intros H. apply andb_true_iff in H. tauto. Qed.
+
+(** On 64-bit platforms the size computed from bytes is between 8 and 2^32 + 15: no wrap-around. *)
+Lemma needed_bytes_range b : bytes_ok b = true -> 8 <= needed_bytes 64 b <= 2 ^ 32 + 15.
+Proof.
+  intros Hb. unfold needed_bytes, rd_padded_len, rd_len.
+  change (2 ^ 32) with 4294967296.
+  destruct (Z.ltb_spec (len b) 8) as [?|H8]; [lia|].
+  destruct (Z.eqb_spec (len b) 0) as [?|_]; [lia|].
+  assert (Hu : 0 <= unbe (take 4 (drop 4 b)) < 2 ^ 32).
+  { apply unbe_bound4.
+    - unfold take. rewrite firstn_length. lia.
+    - unfold take, drop. apply bytes_ok_firstn. apply bytes_ok_skipn. exact Hb. }
+  change (2 ^ 32) with 4294967296 in Hu.
+  set (l := unbe (take 4 (drop 4 b))) in *.
+  pose proof (pad8_range l) as Hp.
+  assert (H63 : 2 ^ (64 - 1) = 9223372036854775808) by reflexivity.
+  rewrite (wrap_small 64 l) by lia.
+  rewrite pad_for_len8_nonneg by lia.
+  rewrite (wrap_small 64 (l + pad8 l)) by lia.
+  rewrite wrap_small by lia. lia.
+Qed.
+
+(** The size announced by the first 8 bytes of [D] (8 when there are fewer). *)
+Definition announced (D : list Z) : Z := needed_bytes 64 (take 8 D).
+
+Lemma HN_bytes D : forall b x, D = b ++ x -> 8 <= len b -> needed_bytes 64 b = announced D.
+Proof.
+  intros b x HD Hb. unfold announced. subst D.
+  rewrite st_take_app_le by lia.
+  rewrite <- (st_take_drop 8 b) at 1. apply needed_bytes_prefix. rewrite st_len_take. lia.
+Qed.
+
+Lemma announced_range D : bytes_ok D = true -> 8 <= announced D <= 2 ^ 32 + 15.
+Proof. intros H. apply needed_bytes_range. unfold take. apply bytes_ok_firstn. exact H. Qed.
+
+(* ------------------------------------------------------------------ the results *)
+
+Lemma st_last_cons {A} (l : list A) : forall x d, last (x :: l) d = last l x.
+Proof.
+  induction l as [|y l IH]; intros x d; [reflexivity|].
+  change (last (x :: y :: l) d) with (last (y :: l) d). rewrite (IH y d), (IH y x). reflexivity.
+Qed.
+
+Section Results.
+  Variable M : Type.
+  Variable um : list Z -> res M.
+  Variable max : Z.
+
+  Notation recv := (recv M um 64 max).
+  Notation recv_n := (recv_n M um 64 max).
+
+  (** One complete item at the head of the stream, a faithful transport. *)
+  Lemma recv_frame f tail t :
+    is_frame f -> (0 < max -> len f <= max) -> faithful (t_sched t) -> t_rest t = f ++ tail ->
+    let r := recv t in
+    r_out r = RMsg (um f) /\ t_rest (r_tr r) = tail /\ faithful (t_sched (r_tr r)) /\
+    t_end (r_tr r) = t_end t /\ consumed r = len f.
+  Proof.
+    intros Hf Hmax Hfa Ht r.
+    pose proof (frame_len_ge8 f Hf) as H8.
+    pose proof (HN_frame f tail Hf) as HN.
+    assert (Hm8 : 0 < max -> 8 <= max) by (intros Hm; specialize (Hmax Hm); lia).
+    pose proof (recv_progress M um 64 max (f ++ tail) (len f) HN H8 Hm8 (t_end t) t Ht Hfa eq_refl) as (_ & HB & _).
+    assert (Hno : ~ oversize max (len f)) by (unfold oversize; lia).
+    assert (Hle : len f <= len (f ++ tail)) by (rewrite st_len_app; pose proof (st_len_nonneg tail); lia).
+    destruct (HB Hno Hle) as (Ho & Hr & Hf' & He).
+    rewrite st_take_app_exact in Ho. rewrite st_drop_app_exact in Hr.
+    fold r in Ho, Hr, Hf', He. repeat split; try assumption.
+    pose proof (recv_safe M um 64 max (f ++ tail) (len f) HN H8 t Ht) as (_ & p & HD & Hc & _ & _ & Hmsg & _).
+    fold r in HD, Hc, Hmsg. destruct (Hmsg _ Ho) as [Hp _]. lia.
+  Qed.
+
+  (** Exact delivery: any number of items of any size, any faithful chunking. *)
+  Lemma recv_exact frames : forall tail t,
+    Forall is_frame frames -> (0 < max -> Forall (fun f => len f <= max) frames) ->
+    faithful (t_sched t) -> t_rest t = concat frames ++ tail ->
+    let rs := recv_n (length frames) t in
+    map r_out rs = map (fun f => RMsg (um f)) frames /\
+    map consumed rs = map len frames /\
+    map (fun r => t_rest (r_tr r)) rs = tails frames tail /\
+    t_rest (last_tr t rs) = tail /\ faithful (t_sched (last_tr t rs)) /\ t_end (last_tr t rs) = t_end t.
+  Proof.
+    induction frames as [|f fs IH]; intros tail t Hfr Hmax Hfa Ht.
+    - cbn [length Stream.recv_n map tails last_tr last]. cbn [concat app] in Ht. repeat split; try reflexivity; assumption.
+    - inversion Hfr as [|? ? Hf Hfs]; subst.
+      cbn [concat] in Ht. rewrite <- app_assoc in Ht.
+      assert (Hmf : 0 < max -> len f <= max) by (intros Hm; specialize (Hmax Hm); inversion Hmax; assumption).
+      assert (Hmfs : 0 < max -> Forall (fun f => len f <= max) fs) by (intros Hm; specialize (Hmax Hm); inversion Hmax; assumption).
+      destruct (recv_frame f (concat fs ++ tail) t Hf Hmf Hfa Ht) as (Ho & Hr & Hf' & He & Hc).
+      specialize (IH tail (r_tr (recv t)) Hfs Hmfs Hf' Hr).
+      destruct IH as (I1 & I2 & I3 & I4 & I5 & I6).
+      cbn [length Stream.recv_n map tails]. rewrite Ho, Hc, Hr, I1, I2, I3.
+      repeat split; try reflexivity.
+      + unfold last_tr in *. cbn [map]. rewrite st_last_cons. exact I4.
+      + unfold last_tr in *. cbn [map]. rewrite st_last_cons. exact I5.
+      + unfold last_tr in *. cbn [map]. rewrite st_last_cons. rewrite I6. exact He.
+  Qed.
+
+  Lemma recv_n_snoc n : forall t,
+    recv_n (S n) t = recv_n n t ++ [recv (last_tr t (recv_n n t))].
+  Proof.
+    induction n as [|n IH]; intros t; [reflexivity|].
+    change (recv_n (S (S n)) t) with (recv t :: recv_n (S n) (r_tr (recv t))).
+    rewrite IH. cbn [Stream.recv_n app]. f_equal. f_equal. f_equal.
+    unfold last_tr. cbn [map]. rewrite st_last_cons. reflexivity.
+  Qed.
+
+  (** Clean end of stream, or a stream that ends inside an item: the transport's end error. *)
+  Lemma recv_end t : faithful (t_sched t) -> t_rest t = [] -> r_out (recv t) = RErr (t_end t).
+  Proof.
+    intros Hfa Ht.
+    assert (HN : forall b x : list Z, [] = b ++ x -> 8 <= len b -> needed_bytes 64 b = 8).
+    { intros b x Hb H8. destruct b; [rewrite st_len_nil in H8; lia | discriminate]. }
+    assert (Hm8 : 0 < max -> 8 <= max \/ True) by (intros; right; exact I).
+    destruct (Z_lt_le_dec 0 max) as [Hpos|Hnpos].
+    - (* the limit is irrelevant: nothing is read *)
+      pose proof (recv_safe M um 64 max [] 8 HN ltac:(lia) t Ht) as (Hnp & p & HD & Hc & _ & _ & Hmsg & Hbig & _).
+      destruct p; [|discriminate]. cbn [app] in HD.
+      destruct (Z_lt_le_dec max 8) as [Hsmall|Hbig8].
+      + (* a limit below 8: the analysis of progress does not apply, go through the first step *)
+        unfold Stream.recv. rewrite Nat.add_comm. cbn [Nat.add Stream.recv_loop].
+        destruct (tr_read (l_tr (recv_init t)) (l_need (recv_init t) - l_read (recv_init t))) as [[chunk err] t'] eqn:Htr.
+        rewrite (recv_step_simpl M um 64 max _ chunk err t' (inv0_init 64 t) Htr).
+        cbn [recv_init l_tr l_need l_read] in Htr.
+        pose proof (tr_read_faithful _ _ _ _ _ Htr ltac:(lia) Hfa) as (_ & Hempty & _).
+        destruct (Hempty Ht) as [Hch Herr]. subst chunk err.
+        unfold step_simpl. cbn [recv_init l_read l_need l_cap l_trace l_tr l_buf].
+        unfold buf0. cbn. reflexivity.
+      + pose proof (recv_progress M um 64 max [] 8 HN ltac:(lia) ltac:(intros; lia) (t_end t) t Ht Hfa eq_refl) as (_ & _ & HC).
+        rewrite st_len_nil in HC. destruct (HC ltac:(lia) ltac:(left; lia)) as [Ho _]. exact Ho.
+    - pose proof (recv_progress M um 64 max [] 8 HN ltac:(lia) ltac:(intros; lia) (t_end t) t Ht Hfa eq_refl) as (_ & _ & HC).
+      rewrite st_len_nil in HC. destruct (HC ltac:(lia) ltac:(left; lia)) as [Ho _]. exact Ho.
+  Qed.
+
+  Lemma recv_cut p t :
+    is_cut_frame p -> (0 < max -> 8 <= max) -> faithful (t_sched t) -> t_rest t = p ->
+    r_out (recv t) = RErr (t_end t) \/ r_out (recv t) = RTooBig.
+  Proof.
+    intros (f & q & Hf & Hfp & Hq) Hm8 Hfa Ht.
+    pose proof (frame_len_ge8 f Hf) as H8.
+    pose proof (HN_cut p f q Hf Hfp) as HN.
+    pose proof (recv_progress M um 64 max p (len f) HN H8 Hm8 (t_end t) t Ht Hfa eq_refl) as (HA & _ & HC).
+    assert (Hlt : len p < len f).
+    { rewrite Hfp, st_len_app. destruct q; [congruence|]. unfold len. cbn [length]. lia. }
+    destruct (Z_lt_le_dec (len p) 8) as [Hs|Hl].
+    - left. destruct (HC Hlt (or_introl Hs)) as [Ho _]. exact Ho.
+    - destruct (Z_lt_le_dec 0 max) as [Hpos|Hnpos].
+      + destruct (Z_lt_le_dec max (len f)) as [Hov|Hfit].
+        * right. apply HA; [exact Hl | split; assumption].
+        * left. destruct (HC Hlt) as [Ho _]; [right; unfold oversize; lia | exact Ho].
+      + left. destruct (HC Hlt) as [Ho _]; [right; unfold oversize; lia | exact Ho].
+  Qed.
+
+  Lemma recv_cut_fits p f q t :
+    is_frame f -> f = p ++ q -> q <> [] -> (0 < max -> len f <= max) -> faithful (t_sched t) -> t_rest t = p ->
+    r_out (recv t) = RErr (t_end t).
+  Proof.
+    intros Hf Hfp Hq Hmax Hfa Ht.
+    pose proof (frame_len_ge8 f Hf) as H8.
+    pose proof (HN_cut p f q Hf Hfp) as HN.
+    assert (Hm8 : 0 < max -> 8 <= max) by (intros Hm; specialize (Hmax Hm); lia).
+    pose proof (recv_progress M um 64 max p (len f) HN H8 Hm8 (t_end t) t Ht Hfa eq_refl) as (_ & _ & HC).
+    assert (Hlt : len p < len f).
+    { rewrite Hfp, st_len_app. destruct q; [congruence|]. unfold len. cbn [length]. lia. }
+    destruct (HC Hlt) as [Ho _]; [right; unfold oversize; lia | exact Ho].
+  Qed.
+
+  (** Messages, then a stream that ends cleanly or inside an item: the messages, then the end error. *)
+  Lemma recv_truncated frames p t :
+    Forall is_frame frames -> (0 < max -> Forall (fun f => len f <= max) frames) ->
+    (p = [] \/ exists f q, is_frame f /\ f = p ++ q /\ q <> [] /\ (0 < max -> len f <= max)) ->
+    faithful (t_sched t) -> t_rest t = concat frames ++ p ->
+    map r_out (recv_n (S (length frames)) t) = map (fun f => RMsg (um f)) frames ++ [RErr (t_end t)].
+  Proof.
+    intros Hfr Hmax Hp Hfa Ht.
+    destruct (recv_exact frames p t Hfr Hmax Hfa Ht) as (I1 & _ & _ & I4 & I5 & I6).
+    rewrite recv_n_snoc, map_app, I1. cbn [map]. f_equal. f_equal. rewrite <- I6.
+    destruct Hp as [Hp|(f & q & Hf & Hfp & Hq & Hfit)].
+    - apply recv_end; [exact I5 | rewrite I4; exact Hp].
+    - apply (recv_cut_fits p f q); assumption.
+  Qed.
+
+  (* ---- whatever the transport answers *)
+
+  (** A stream that ends inside an item never yields a message. *)
+  Lemma recv_cut_any p t : is_cut_frame p -> t_rest t = p ->
+    (forall x, r_out (recv t) <> RMsg x) /\ r_out (recv t) <> RPanic /\ r_out (recv t) <> RFuel.
+  Proof.
+    intros (f & q & Hf & Hfp & Hq) Ht.
+    pose proof (frame_len_ge8 f Hf) as H8.
+    pose proof (HN_cut p f q Hf Hfp) as HN.
+    pose proof (recv_safe M um 64 max p (len f) HN H8 t Ht) as (Hnp & p' & HD & Hc & _ & _ & Hmsg & _).
+    split; [|split; [exact Hnp | apply recv_terminates]].
+    intros x Hx. destruct (Hmsg x Hx) as [Hl _].
+    assert (len p' <= len p) by (rewrite HD; rewrite st_len_app; pose proof (st_len_nonneg (t_rest (r_tr (recv t)))); lia).
+    assert (len p < len f).
+    { rewrite Hfp, st_len_app. destruct q; [congruence|]. unfold len. cbn [length]. lia. }
+    lia.
+  Qed.
+
+  (** Never more than the current item: requests, consumption, and the bytes that follow it. *)
+  Lemma recv_no_overread f tail t : is_frame f -> t_rest t = f ++ tail ->
+    let r := recv t in
+    r_out r <> RPanic /\
+    trace_ok (len f) 0 (r_trace r) /\
+    (exists p, f ++ tail = p ++ t_rest (r_tr r) /\ consumed r = len p /\ len p <= len f) /\
+    (forall x, r_out r = RMsg x -> x = um f /\ t_rest (r_tr r) = tail /\ consumed r = len f).
+  Proof.
+    intros Hf Ht r.
+    pose proof (frame_len_ge8 f Hf) as H8.
+    pose proof (HN_frame f tail Hf) as HN.
+    pose proof (recv_safe M um 64 max (f ++ tail) (len f) HN H8 t Ht) as (Hnp & p & HD & Hc & Hle & _ & Hmsg & _ & _ & Htr).
+    fold r in Hnp, HD, Hc, Hmsg, Htr.
+    split; [exact Hnp|]. split; [exact Htr|]. split.
+    - exists p. repeat split; try assumption. lia.
+    - intros x Hx. destruct (Hmsg x Hx) as (Hl & Hxe & _).
+      rewrite st_take_app_exact in Hxe. split; [exact Hxe|].
+      assert (Hp : p = f).
+      { rewrite <- (st_take_app_exact f tail). rewrite HD. rewrite <- Hl. apply eq_sym. apply st_take_app_exact. }
+      subst p. split; [|lia]. apply app_inv_head in HD. symmetry. exact HD.
+  Qed.
+
+  (** An oversize header is never accepted, the buffer is not grown, the body is not read. *)
+  Lemma recv_oversize_any h total z t : is_header h total -> 0 < max < total -> t_rest t = h ++ z ->
+    let r := recv t in
+    (forall x, r_out r <> RMsg x) /\ r_out r <> RPanic /\ r_out r <> RFuel /\
+    r_cap r = buf0 /\ consumed r <= 8.
+  Proof.
+    intros Hh Hmx Ht r.
+    pose proof (header_total_ge8 _ _ Hh) as H8.
+    pose proof (HN_header h total z Hh) as HN.
+    pose proof (recv_safe M um 64 max (h ++ z) total HN H8 t Ht) as (Hnp & p & HD & Hc & _ & Hov & Hmsg & _ & Hcap & _).
+    fold r in Hnp, HD, Hc, Hmsg, Hcap.
+    assert (Hos : oversize max total) by (unfold oversize; lia).
+    repeat split.
+    - intros x Hx. destruct (Hmsg x Hx) as (_ & _ & Hno). exact (Hno Hos).
+    - exact Hnp.
+    - apply recv_terminates.
+    - destruct Hcap as [?|(_ & _ & _ & Hno)]; [assumption | exfalso; exact (Hno Hos)].
+    - specialize (Hov Hos). lia.
+  Qed.
+
+  Lemma recv_oversize_faithful h total z t :
+    is_header h total -> 0 < max < total -> 8 <= max -> faithful (t_sched t) -> t_rest t = h ++ z ->
+    r_out (recv t) = RTooBig.
+  Proof.
+    intros Hh Hmx Hm8 Hfa Ht.
+    pose proof (header_total_ge8 _ _ Hh) as H8.
+    pose proof (HN_header h total z Hh) as HN.
+    pose proof (recv_progress M um 64 max (h ++ z) total HN H8 ltac:(intros; exact Hm8) (t_end t) t Ht Hfa eq_refl) as (HA & _).
+    apply HA.
+    - rewrite st_len_app, (header_len _ _ Hh). pose proof (st_len_nonneg z). lia.
+    - unfold oversize. lia.
+  Qed.
+
+  (** Arbitrary bytes, arbitrary transport: no panic, termination, bounded buffer and consumption. *)
+  Lemma recv_bytes_any t : bytes_ok (t_rest t) = true ->
+    let r := recv t in
+    r_out r <> RPanic /\ r_out r <> RFuel /\
+    (0 < max -> r_cap r <= Z.max buf0 max) /\
+    r_cap r <= Z.max buf0 (announced (t_rest t)) /\
+    consumed r <= Z.max 8 (announced (t_rest t)) /\ consumed r <= len (t_rest t).
+  Proof.
+    intros Hb r.
+    pose proof (announced_range _ Hb) as [H8 _].
+    pose proof (recv_safe M um 64 max (t_rest t) (announced (t_rest t)) (HN_bytes _) H8 t eq_refl)
+      as (Hnp & p & HD & Hc & Hle & _ & _ & _ & Hcap & _).
+    fold r in Hnp, HD, Hc, Hcap.
+    split; [exact Hnp|]. split; [apply recv_terminates|]. unfold oversize in Hcap. repeat split.
+    - intros Hm. destruct Hcap as [->|(-> & _ & _ & Hno)]; lia.
+    - destruct Hcap as [->|(-> & _)]; lia.
+    - lia.
+    - rewrite Hc. pose proof (st_len_nonneg (t_rest (r_tr r))) as Hnn. rewrite HD, st_len_app. lia.
+  Qed.
+End Results.
